@@ -19,8 +19,10 @@ MonTick(S) ==
 
 (* ------------------------------ Telescope ------------------------------- *)
 BufOK(S, o) == S.buf.hotFree - ObsVol(o) >= 0 /\ ColdHasCapacity(S, ObsVol(o))
+(* demand of this observation plus what was promised earlier in the same  *)
+(* telescope step and has not been taken from the cluster yet             *)
 CluOK0(S, o) ==
-    LET d == OCfg(o).ing
+    LET d == OCfg(o).ing + S.sch.pend
     IN d <= cfg.maxIngest /\ Cardinality(S.cl.avail) >= d
        /\ Cardinality(S.cl.ingest) + d <= cfg.maxIngest
 AiPid(o) == Pid("AI", o, 0, 0)
@@ -37,9 +39,10 @@ TelOne(S, o) ==
     IN IF S.pend # "" THEN S
        ELSE IF ob.status = "WAITING" /\ c.est * K <= S.now /\ c.demand <= capacity
        THEN IF c.dur < 1 \/ cfg.hotCap <= ObsVol(o) THEN Raise(S, "RuntimeError")
-            ELSE LET cok == CluOK0(S, o) /\ S.sch.prov + c.ing <= cfg.maxIngest
+            ELSE LET cok == OCfg(o).ing + S.sch.pend <= cfg.maxIngest /\ CluOK0(S, o)
+                            /\ S.sch.prov + c.ing <= cfg.maxIngest
                  IN IF BufOK(S, o) /\ cok
-                    THEN LET S1 == [S EXCEPT !.sch.prov = @ + c.ing,
+                    THEN LET S1 == [S EXCEPT !.sch.prov = @ + c.ing, !.sch.pend = @ + c.ing,
                                              !.tel.use = @ + c.demand,
                                              !.tel.flag = TRUE,
                                              !.obs[o].ast = S.now]
@@ -75,7 +78,7 @@ AIStep(S, pid) ==
     IN IF st = "FINISHED" THEN AIExit(S0, pid)
        ELSE IF st = "WAITING"
        THEN LET S1 == Spawn(Spawn(S0, PiPid(o), Loc0), StPid(o), Loc0)
-            IN Sleep([S1 EXCEPT !.obs[o].status = "RUNNING"], pid, STEP)
+            IN Sleep([S1 EXCEPT !.obs[o].status = "RUNNING", !.sch.pend = @ - OCfg(o).ing], pid, STEP)
        ELSE IF left > 0 THEN Sleep([S0 EXCEPT !.procs[pid].left = left - 1], pid, STEP)
        ELSE AIExit(S0, pid)
 
